@@ -167,13 +167,28 @@ fn case(rng: &mut Rng, rep: &mut Report, case_no: u64, reps: usize) {
             }
         }
     };
+    // the stage's recent history must not matter: some cases first run a burst of dispatches in
+    // which every system returns at once
+    let warmup = if w <= 6 && rng.chance(1, 2) { rng.range(200, 3000) } else { 0 };
+    let back_to_back = rng.chance(1, 2);
+    rep.metric("warmup_dispatches", warmup as i64);
     match ctxt {
         Ctxt::Async => {
             let b = instantiate(&plan, &ctx, use_pool);
             let mut ad = b.build_async(full_world());
+            ctx.set_mode(Mode::Quiet);
+            for _ in 0..warmup {
+                ad.dispatch();
+                ad.wait();
+            }
+            ctx.set_mode(Mode::Build);
             run_reps(
                 &mut || {
                     ad.dispatch();
+                    if back_to_back {
+                        // a second request while the first may still be in flight
+                        ad.dispatch();
+                    }
                     ad.wait();
                 },
                 &ctx,
@@ -185,6 +200,11 @@ fn case(rng: &mut Rng, rep: &mut Report, case_no: u64, reps: usize) {
             let mut d = instantiate(&plan, &ctx, use_pool).build();
             let world = full_world();
             let par_only = rng.chance(1, 3);
+            ctx.set_mode(Mode::Quiet);
+            for _ in 0..warmup {
+                d.dispatch(&world);
+            }
+            ctx.set_mode(Mode::Build);
             run_reps(
                 &mut || {
                     if par_only {
